@@ -19,4 +19,10 @@ CHECKS = {
   "note": "continuous quantifiers decided on letter grids; open finding D4 (2-D angle sign) matched by footprint; numpy.random seeded around the 3-D axis-angle query",
   "technique": "explicit-state BFS over constructor/composition sequences plus exhaustive enumeration of parameter letters, compared with closed-form references",
  },
+ "C01": {
+  "text": "Every image kind (11 letters: Image/MaskedImage/BooleanImage, 2-D and 3-D, 1-4 channels, float64/float32/uint8/bool, all-true and sparse masks) is driven through every geometry-op letter (crop family, rescale/resize family with every rounding mode and order, zoom, rotations in all quadrants with retain_shape on/off, mirror, transform-about-centre, warp_to_shape/warp_to_mask with affine, TPS and piecewise-affine warps, pyramids); the result becomes the next state (thorough: second op from a reduced alphabet). Each step is decided pixel by pixel against an independent multilinear/nearest reference driven by the returned transform, landmark by landmark through the same transform, and mask pixel by mask pixel.",
+  "design_ref": "DESIGN.md 3/C01",
+  "note": "continuous parameters on letter sets; pixels whose interpolation support leaves the source are not compared; only the scipy interpolation path exists here; consistent re-framing of pixels+landmarks+transform is not a violation ([interp])",
+  "technique": "explicit-state exploration of op sequences on the implementation (depth 1-2), each transition checked against a reference interpolation model",
+ },
 }
